@@ -2,41 +2,11 @@
 from .values import *
 from .state import *
 from . import models
+from .loops import QWrite
 
 
 class LoopHeadReached(Exception):
     pass
-
-
-class QWrite:
-    """Quantified write from a loop summary:  for all m with H0[m].<guard_field> == Some(guard_node):  m.<field> := value."""
-
-    def __init__(self, seq, guard_field, guard_node, writes, origin):
-        self.seq, self.guard_field, self.guard_node, self.writes, self.origin = seq, guard_field, guard_node, dict(writes), origin
-
-    def guard(self, I, st, nid, force=True):
-        n = st.nodes[nid]
-        if n.fresh or not n.live0:
-            return False
-        g = st.h0_link(nid, self.guard_field)
-        if g == "unk":
-            if self.guard_field == "parent" and st.anc_query(self.guard_node, nid) is False:
-                return False
-            if not force:
-                return None
-            I.force(st, VLazy(nid, self.guard_field))
-            g = st.h0_link(nid, self.guard_field)
-        return g == self.guard_node
-
-    def apply(self, I, st, nid, f):
-        if f not in self.writes:
-            return None
-        if self.guard(I, st, nid):
-            return self.writes[f]
-        return None
-
-    def __repr__(self):
-        return "forall m: H0[m].%s == %s => %s (%s)" % (self.guard_field, self.guard_node, self.writes, self.origin)
 
 
 class Terminal:
@@ -1112,274 +1082,6 @@ def _mentions(v, nid):
     return ("'%s'" % nid) in repr(vkey(v))
 
 
-def _at_loop_head(self, st, fr):
-    """Cursor-loop summarisation (DESIGN 4.5).  Called on every arrival at a natural-loop head."""
-    visits = dict(st.meta.get("lh", {}))
-    key = (fr.uid, fr.bb)
-    visits[key] = visits.get(key, 0) + 1
-    st.meta["lh"] = visits
-    prev_all = dict(st.meta.get("lh_prev", {}))
-    prev_locals = prev_all.get(key)
-    prev_all[key] = dict(fr.locals)
-    st.meta["lh_prev"] = prev_all
-    if visits[key] == 1:
-        first = dict(st.meta.get("lh_first", {}))
-        first[key] = dict(fr.locals)
-        st.meta["lh_first"] = first
-        return
-    if st.meta.get("stop_at") is not None:
-        return      # already inside a probe
-    # template 2: pure walk to the end of a chain (cursor local holds a NodeId)
-    for l, v in list(fr.locals.items()):
-        if isinstance(v, VStruct) and v.adt == NODEID:
-            g = st.node_of_id(v)
-            if g is None:
-                continue
-            gr = st.nodes[g]
-            if gr.fresh or gr.cur or not gr.origin.startswith("H0[") or "]." not in gr.origin:
-                continue
-            prev, fld = gr.origin[3:].split("].", 1)
-            if fld not in LINKS or fld in gr.h0 or prev not in st.nodes or prev_locals is None:
-                continue
-            pv = prev_locals.get(l)
-            if not (isinstance(pv, VStruct) and pv.adt == NODEID and st.node_of_id(pv) == prev):
-                continue
-            self._try_chain_end(st, fr, l, g, fld, key)
-    # candidate cursors: locals holding Some(id of an unconstrained chain member)
-    for l, v in list(fr.locals.items()):
-        if isinstance(v, VLazy) and v.n in st.nodes and v.field in st.nodes[v.n].h0:
-            v = st.nodes[v.n].h0[v.field]       # already materialised: no fork needed
-        if not (isinstance(v, VEnum) and v.adt == OPTION and v.variant == "Some"):
-            continue
-        g = st.node_of_id(v.get("0"))
-        if g is None:
-            continue
-        gr = st.nodes[g]
-        if gr.fresh or gr.cur or not gr.origin.startswith("H0["):
-            continue
-        if self._try_summarise(st, fr, l, g):
-            return
+from . import loops as _loops      # noqa: E402  (loop summaries live in loops.py)
 
-
-Interp.at_loop_head = _at_loop_head
-
-
-def _probe_iteration(self, st, fr, l, k):
-    """Run one iteration of the loop at (fr, fr.bb) on a scratch copy with cursor local l = Some(id k).
-    Returns (scratch state, writes) when control is back at the head; None otherwise."""
-    sc = st.copy()
-    f2 = sc.frames[-1]
-    f2.locals[l] = some(sc.id_of(k))
-    sc.meta["stop_at"] = (f2.uid, f2.bb)
-    sc.meta["stop_armed"] = False
-    nev = len(sc.events)
-    depth = len(sc.frames)
-    try:
-        guard = 0
-        while True:
-            guard += 1
-            if guard > 300:
-                return None
-            t = self.run_block(sc)
-            if t is not None or len(sc.frames) < depth:
-                return None
-    except LoopHeadReached:
-        pass
-    except (Fork, Panic, Undecided, Infeasible):
-        return None
-    if len(sc.frames) != depth:
-        return None
-    return sc, [e for e in sc.events[nev:]]
-
-
-Interp._probe_iteration = _probe_iteration
-
-
-def _try_summarise(self, st, fr, l, g):
-    key = (fr.uid, fr.bb)
-    r = self._probe_iteration(st, fr, l, g)
-    if r is None:
-        return False
-    sc, events = r
-    f2 = sc.frames[-1]
-    # (a) only the cursor local changed, and it now holds the lazy chain field of g
-    newcur = f2.locals.get(l)
-    if not (isinstance(newcur, VLazy) and newcur.n == g and newcur.field in LINKS):
-        return False
-    for k2 in set(fr.locals) | set(f2.locals):
-        if k2 == l:
-            continue
-        a, b = fr.locals.get(k2), f2.locals.get(k2)
-        if a is None or b is None or vkey(a) != vkey(b):
-            return False
-    chain = newcur.field
-    # (b) effect: writes to fields of g only, with loop-invariant values; nothing else
-    writes = {}
-    for e in events:
-        if e[0] == "write" and e[1] == g:
-            val = sc.nodes[g].cur[e[2]]
-            if _mentions(val, g):
-                return False
-            writes[e[2]] = val
-        elif e[0] in ("write", "write-arena", "push", "clear", "drop-data"):
-            return False
-    if chain in writes:
-        return False
-    if sc.len != st.len or len(sc.drops) != len(st.drops):
-        return False
-    # (c) characterise the chain: members = children of x (J4), walk started at first(x)
-    if chain != "next_sibling":
-        return False
-    x = st.h0_link(g, "parent")
-    if x in ("unk", None):
-        return False
-    first_locals = st.meta.get("lh_first", {}).get(key, {})
-    c0v = first_locals.get(l)
-    c0 = st.node_of_id(c0v.get("0")) if isinstance(c0v, VEnum) and c0v.variant == "Some" else None
-    if c0 is None or st.h0_link(c0, "previous_sibling") is not None or st.h0_link(c0, "parent") != x:
-        return False
-    # the H0 chain of x's children must be what the loop walks: no changed next link among (possible) children of x
-    for k, kr in st.nodes.items():
-        if kr.fresh or not kr.live0:
-            continue
-        if "next_sibling" in kr.cur:
-            pk = st.h0_link(k, "parent")
-            if pk == x or (pk == "unk" and st.anc_query(x, k) is not False):
-                cv = kr.cur["next_sibling"]
-                hv = kr.h0.get("next_sibling")
-                if hv is None or vkey(self.force(st, cv)) != vkey(hv):
-                    return False
-    # named children that the loop has not reached yet must behave like the generic member
-    for k, kr in list(st.nodes.items()):
-        if k == g or kr.fresh or not kr.live0:
-            continue
-        pk = st.h0_link(k, "parent")
-        if pk == "unk":
-            if st.anc_query(x, k) is False:
-                continue
-            self.force(st, VLazy(k, "parent"))      # decide (forks)
-            pk = st.h0_link(k, "parent")
-        if pk != x:
-            continue
-        rk = self._probe_iteration(st, fr, l, k)
-        if rk is None:
-            return False
-        sk, ek = rk
-        wk = {e[2]: sk.nodes[k].cur[e[2]] for e in ek if e[0] == "write" and e[1] == k}
-        if set(wk) != set(writes) or any(vkey(wk[f]) != vkey(writes[f]) for f in writes):
-            return False
-        if any(e[0] in ("write", "write-arena", "push", "clear") and not (e[0] == "write" and e[1] == k) for e in ek):
-            return False
-    # apply the summary
-    st.meta["wseq"] = st.meta.get("wseq", 0) + 1
-    qw = QWrite(st.meta["wseq"], "parent", x, writes, "%s loop at bb%d over children of %s" % (fr.fnkey.split("::")[-1], fr.bb, x))
-    st.qwrites.append(qw)
-    fr.locals[l] = none()
-    st.meta["summaries"] = st.meta.get("summaries", ()) + (("cursor-loop", fr.fnkey, chain, x, tuple(sorted(writes))),)
-    st.events.append(("qwrite", x, tuple(sorted(writes)), fr.fnkey))
-    return True
-
-
-Interp._try_summarise = _try_summarise
-
-
-def _try_chain_end(self, st, fr, l, g, fld, key):
-    """Loop `cur = start; while let Some(n) = cur.<fld> { cur = n }`-like: when the cursor is an unconstrained chain member g, verify by a probe
-    that one iteration only advances the cursor along fld without any effect, then jump to the end of the chain (or to a named later member)."""
-    sc = st.copy()
-    try:
-        g2 = sc.new_node(True, "probe successor")
-        sc.set_h0_link(g, fld, g2)
-        sc.propagate()
-    except (Infeasible, Undecided):
-        return
-    f2 = sc.frames[-1]
-    sc.meta["stop_at"] = (f2.uid, f2.bb)
-    sc.meta["stop_armed"] = False
-    nev = len(sc.events)
-    depth = len(sc.frames)
-    try:
-        guard = 0
-        while True:
-            guard += 1
-            if guard > 300:
-                return
-            t = self.run_block(sc)
-            if t is not None or len(sc.frames) < depth:
-                return
-    except LoopHeadReached:
-        pass
-    except (Fork, Panic, Undecided, Infeasible):
-        return
-    if len(sc.frames) != depth:
-        return
-    f2 = sc.frames[-1]
-    nv = f2.locals.get(l)
-    if not (isinstance(nv, VStruct) and nv.adt == NODEID and sc.node_of_id(nv) == g2):
-        return
-    for k2 in set(fr.locals) | set(f2.locals):
-        if k2 == l:
-            continue
-        a, b = fr.locals.get(k2), f2.locals.get(k2)
-        if a is None or b is None or vkey(a) != vkey(b):
-            return
-    if any(e[0] in ("write", "write-arena", "push", "clear", "drop-data") for e in sc.events[nev:]):
-        return
-    if sc.len != st.len:
-        return
-    # verified: the loop is a pure walk along fld.  Decide where it ends.
-    first_locals = st.meta.get("lh_first", {}).get(key, {})
-    c0v = first_locals.get(l)
-    start = st.node_of_id(c0v) if isinstance(c0v, VStruct) else None
-    # members already passed (known fld-path into g) cannot come again (acyclic)
-    before = set()
-    for k in st.nodes:
-        c = k
-        seen = set()
-        while c not in ("unk", None) and c not in seen:
-            seen.add(c)
-            if c == g:
-                before.add(k)
-                break
-            c = st.h0_link(c, fld) if not st.nodes[c].fresh and st.nodes[c].live0 else None
-    luid = fr.uid
-
-    def set_local(s, val):
-        for f in s.frames:
-            if f.uid == luid:
-                f.locals[l] = val
-
-    opts = []
-    for (label, fn) in st.materialise_options(g, fld):
-        if label.endswith("=new"):
-            continue
-        opts.append((label, fn))
-
-    def jump_fresh(s):
-        e = s.new_node(True, "end of the %s-chain of %s" % (fld, start))
-        s.set_h0_link(e, fld, None)
-        pg = s.h0_link(g, "parent")
-        if pg != "unk":
-            s.set_h0_link(e, "parent", pg)
-        set_local(s, s.id_of(e))
-        s.meta["reach"] = tuple(s.meta.get("reach", ())) + ((fld, start, e), (fld, g, e))
-        s.meta["chain_gap"] = tuple(s.meta.get("chain_gap", ())) + ((fld, g, e),)
-    opts.append(("walk %s from %s to a fresh chain end" % (fld, g), jump_fresh))
-    for k, kr in st.nodes.items():
-        if k in before or kr.fresh or not kr.live0 or k == g:
-            continue
-        def jump_named(s, k=k):
-            pg, pk = s.h0_link(g, "parent"), s.h0_link(k, "parent")
-            if pg != "unk" and pk != "unk" and pg != pk:
-                raise Infeasible("different chains")
-            if pg != "unk" and pk == "unk":
-                s.set_h0_link(k, "parent", pg)
-            set_local(s, s.id_of(k))
-            s.meta["reach"] = tuple(s.meta.get("reach", ())) + ((fld, start, k), (fld, g, k))
-            s.meta["chain_gap"] = tuple(s.meta.get("chain_gap", ())) + ((fld, g, k),)
-        opts.append(("walk %s from %s on to %s" % (fld, g, k), jump_named))
-    st.meta["summaries"] = st.meta.get("summaries", ()) + (("chain-end", fr.fnkey, fld, start),)
-    raise Fork(opts, "chain walk along %s in %s" % (fld, fr.fnkey))
-
-
-Interp._try_chain_end = _try_chain_end
+Interp.at_loop_head = _loops.at_loop_head
